@@ -519,6 +519,9 @@ LinkAlphabet ==        \* C12: .link / leading '. =' with expressions whose depe
     DotSet(Bin("+", Dot, Num(0))), DotSet(Bin("+", S, Num(64))),
     Const("k", Bin("-", E, S)), Lab("s"), Lab("e"), I0("nop"), W(<<S, E>>), Blkb(Num(3)), By(<<Num(1)>>) }
 
+LinkAliasAlphabet ==   \* C12: the cancelling label reached through a chain of aliases ('a = b', 'b = c', 'c = s'), defined before or after the labels
+  { Link(Bin("-", Bin("+", K, S), Sym("a"))), Link(Bin("-", Bin("+", K, E), Sym("a"))), Const("a", Sym("b")), Const("b", S), Const("b", Sym("c")), Const("c", S),
+    Lab("s"), Lab("e"), I0("nop") }
 LinkTopAlphabet ==     \* C12: images at the top of the address space, negative targets and bases (addresses are taken modulo 2^16)
   { Link(Num(65472)), Link(Num(-64)), DotSet(Num(-32)), DotSet(Num(-2)), DotSet(Num(65504)), DotSet(Bin("-", S, E)), DotSet(Bin("-", Num(0), Num(48))),
     Lab("s"), Lab("e"), I0("nop"), W(<<E>>), Blkb(Num(3)),
